@@ -430,8 +430,11 @@ class AggregatorSystem:
   def observe_args(self, args):
     return [(cid, tree, w) for cid, tree, w in args]
 
-  def apply(self, state, args):
-    aggregated, new_state = self.aggregator.apply(args, state)
+  def apply(self, state, args, as_generator=False):
+    # Aggregator.apply takes any Iterable of (id, params, weight): a list and a
+    # one-pass generator over the same triples are the same clients
+    clients = (t for t in list(args)) if as_generator else args
+    aggregated, new_state = self.aggregator.apply(clients, state)
     return new_state, {'aggregated': aggregated, 'state': new_state}
 
   def apply_other(self, state, args):
@@ -443,6 +446,17 @@ class AggregatorSystem:
 
 
 # ----------------------------------------------------------------- interpreter
+
+class _Disturbance(Exception):
+  pass
+
+
+def disturb_other_algorithm():
+  """One FedAvg round of an unrelated algorithm object on fixed data."""
+  alg = build_algorithm('fed_avg', 2)
+  ds = make_dataset([1, 2, 3, 0, -1, 0, 2, 1], 3)
+  alg.apply(alg.init(init_params([1, -1, 2])), [(b'zz', ds, jax.random.PRNGKey(3))])
+
 
 class Entry:
 
@@ -505,7 +519,10 @@ def run_history(case):
           snapshot(system.observe_args(args), 'clients_leaf_deleted', where),
           args_before, 'clients_argument_changed', where)
 
-      new2, out2 = system.apply(e.state, args)
+      if isinstance(system, AggregatorSystem):
+        new2, out2 = system.apply(e.state, args, as_generator=True)
+      else:
+        new2, out2 = system.apply(e.state, args)
       snap2 = snapshot(out2, 'output_leaf_deleted', f'{where}: second call')
       require_same(snap2, snap1, 'duplicate_call_differs',
                    f'{where}: second identical call vs first')
@@ -550,6 +567,33 @@ def run_history(case):
         extra.add('nonfinite_state')
       entries.append(Entry(new1, nsnap, new_shadow, f'result of step {step}'))
       cur = len(entries) - 1
+      if step in case.get('disturb_after', ()):
+        # Unrelated activity in the process, then the same round once more: a
+        # backend context that is left by an exception (it must restore the
+        # thread's backend), and a round of ANOTHER algorithm object.
+        from fedjax.core import for_each_client as _fec
+        backend_before = type(_fec.get_for_each_client_backend()).__name__
+        try:
+          with fedjax.for_each_client_backend('debug'):
+            raise _Disturbance()
+        except _Disturbance:
+          pass
+        backend_after = type(_fec.get_for_each_client_backend()).__name__
+        # (tiny dyadic problems give the same bits on every backend, so the
+        # process state a later round would run under is compared directly)
+        require(backend_after == backend_before,
+                'same_round_repeated_after_unrelated_activity_differs',
+                f'{where}: a backend context left by an exception switched the '
+                f'thread from {backend_before} to {backend_after}: later rounds of '
+                'every algorithm object run on another backend')
+        disturb_other_algorithm()
+        _, out3 = system.apply(e.state, args)
+        require_same(snapshot(out3, 'output_leaf_deleted', f'{where}: repeated later'),
+                     snap1, 'same_round_repeated_after_unrelated_activity_differs',
+                     f'{where}: the same (state, clients) after a backend context was '
+                     'left by an exception and another algorithm ran a round')
+        extra.add('repeated_after_unrelated_activity')
+        del out3
 
     # Every state ever handed to the caller still has its value.
     for i, e in enumerate(entries):
@@ -633,6 +677,8 @@ def labels(case):
       ls.append(k)
   if case.get('other_instance'):
     ls.append('other_instance')
+  if case.get('disturb_after'):
+    ls.append('repeated_after_unrelated_activity')
   if info['roundtrip_then_apply'] >= 1:
     ls.append('roundtrip_then_apply')
   if info['roundtrip_then_apply'] >= 2:
@@ -713,13 +759,17 @@ def other_instance_fields(draw, ops):
   """Half of the histories also run some of their rounds (later ones first in
   the menu: the interesting rounds are those after the object has a past) on a
   second object built with the same hyper-parameters."""
-  if not draw(st.booleans()):
-    return {}
   applies = [i for i, o in enumerate(ops) if o[0] == 'apply']
+  out = {}
+  if draw(st.integers(0, 3)) == 0:
+    out['disturb_after'] = [draw(st.sampled_from(applies))]
+  if not draw(st.booleans()):
+    return out
   menu = applies[1:][::-1] + applies[:1]
   steps = draw(st.lists(st.sampled_from(menu), min_size=1, max_size=3,
                         unique=True))
-  return {'other_instance': True, 'other_steps': sorted(steps)}
+  out.update({'other_instance': True, 'other_steps': sorted(steps)})
+  return out
 
 
 def algorithm_strategy(alg):
